@@ -1,6 +1,7 @@
 // C05 driver: sequential multiway merge front ends x algorithms x stable x sentinels x element size x comparator.
 // script line: k {len key...}xk  L        (keys are ranks 1..; L = number of elements to merge)
 #include <common/ndjson.hpp>
+#include <tlx/algorithm/merge_advance.hpp>
 #include <tlx/algorithm/multiway_merge.hpp>
 #include <fstream>
 using namespace vf;
@@ -29,7 +30,14 @@ static void run_cfg(Out& out, const std::vector<std::vector<long long>>& keys, l
     Cmp cmp;
     auto m = static_cast<tlx::MultiwayMergeAlgorithm>(mwma);
     typename std::vector<T>::iterator ret;
-    if (front == 0) {
+    if (front >= 2) {
+        // the two-way merges of merge_advance.hpp called directly (k = 2, no sentinels): 2 merge_advance_usual, 3 merge_advance_movc, 4 merge_advance;
+        // the library itself only reaches the conditional-move variant
+        It t = target.begin();
+        if (front == 2) ret = tlx::merge_advance_usual(seqs[0].first, seqs[0].second, seqs[1].first, seqs[1].second, t, L, cmp);
+        else if (front == 3) ret = tlx::merge_advance_movc(seqs[0].first, seqs[0].second, seqs[1].first, seqs[1].second, t, L, cmp);
+        else ret = tlx::merge_advance(seqs[0].first, seqs[0].second, seqs[1].first, seqs[1].second, t, L, cmp);
+    } else if (front == 0) {
         if (stable && sentinels) ret = tlx::stable_multiway_merge_sentinels(seqs.begin(), seqs.end(), target.begin(), L, cmp, m);
         else if (stable) ret = tlx::stable_multiway_merge(seqs.begin(), seqs.end(), target.begin(), L, cmp, m);
         else if (sentinels) ret = tlx::multiway_merge_sentinels(seqs.begin(), seqs.end(), target.begin(), L, cmp, m);
@@ -75,6 +83,11 @@ int main(int argc, char** argv) {
             else if (v == 1) run_cfg<Large, LessKey>(out, keys, L, stable, sent, mwma, false, "large", front);
             else if (v == 2) run_cfg<Small, GreaterMirror>(out, keys, L, stable, sent, mwma, true, "small", front);
             else run_cfg<Large, GreaterMirror>(out, keys, L, stable, sent, mwma, true, "large", front);
+        }
+        if (k == 2) for (int front = 2; front <= 4; ++front) {          // a two-way merge that takes equal elements from the first input first is the stable merge
+            // (merge_advance_usual is not what the stable entry points use: it is only required to produce a legal merge run)
+            if ((n + front) % 2) run_cfg<Small, LessKey>(out, keys, L, front != 2, false, 0, false, "small", front);
+            else run_cfg<Large, GreaterMirror>(out, keys, L, front != 2, false, 0, true, "large", front);
         }
     }
     out.flush();
